@@ -57,6 +57,9 @@ type c13Case struct {
 	// Refused: about a third of the messages have recipients the server refuses at RCPT (all of them, or one of two):
 	// such a message is not delivered and its call reports an error, everybody else's messages are delivered as always
 	Refused bool `json:"some_recipients_refused,omitempty"`
+	// Queue: a slow server (200 ms before every end-of-data reply) and a Client timeout of 3 s: every call's own
+	// transactions stay far below the timeout, the time the last callers spend waiting for the shared connection does not
+	Queue bool `json:"queue_longer_than_the_timeout,omitempty"`
 }
 
 type c13Viol struct {
@@ -125,6 +128,14 @@ func c13Run(c c13Case) c13Report {
 	}
 	farm := &refsmtp.Farm{NewConfig: func(int) *refsmtp.Config {
 		sc := &refsmtp.Config{AllowUTF8: true, Delay: func(string) time.Duration { return jitter() }, DataReadDelay: 15 * time.Microsecond}
+		if c.Queue {
+			sc.Delay = func(verb string) time.Duration {
+				if verb == "DATA-END" {
+					return 200 * time.Millisecond
+				}
+				return 0
+			}
+		}
 		if c.Refused {
 			sc.Decide = func(st refsmtp.Step) refsmtp.Action {
 				if st.Verb == "RCPT" && strings.Contains(st.Line, "@refused.example") {
@@ -165,6 +176,9 @@ func c13Run(c c13Case) c13Report {
 		}
 		copts = []mail.Option{mail.WithDialContextFunc(dial), mail.WithTLSPortPolicy(mail.TLSOpportunistic), mail.WithTimeout(30 * time.Second), mail.WithHELO("client.verif.example")}
 	}
+	if c.Queue {
+		copts = append(copts, mail.WithTimeout(3*time.Second))
+	}
 	var callerCfg *tls.Config
 	if c.StartTLS {
 		callerCfg = &tls.Config{InsecureSkipVerify: true, MinVersion: tls.VersionTLS12} // names no server; verification is not what this check is about
@@ -200,6 +214,9 @@ func c13Run(c c13Case) c13Report {
 			size := gen.Pick(rng, []int{100, 100, 2000, 5000, 20000, 60000})
 			if rng.Intn(40) == 0 {
 				size = 300000
+			}
+			if c.Queue {
+				size = 400
 			}
 			body := bytes.Repeat([]byte(fmt.Sprintf("line of message %s\r\n", id)), size/30+1)
 			spec := gen.MsgSpec{ID: id, Enc: gen.Pick(rng, []string{"quoted-printable", "base64", "8bit"}), Subject: "c13 " + id,
@@ -641,6 +658,9 @@ func c13Child(args []string) int {
 	if len(args) > 10 {
 		c.Refused = args[10] == "refused"
 	}
+	if len(args) > 11 {
+		c.Queue = args[11] == "queue"
+	}
 	rep := c13Run(c)
 	b, _ := json.Marshal(rep)
 	fmt.Printf("C13REPORT %s\n", b)
@@ -649,7 +669,7 @@ func c13Child(args []string) int {
 
 func runC13(r *ev.Run, rep *ev.ReplayDoc) ev.Summary {
 	sum := ev.Summary{
-		Rule: "G in {2,4,8,16,32,64} goroutines, each sending a batch of 1-3 distinct messages (unique ids and envelopes - a third of them with local parts that need quoting -, 100 B - 300 KB, some with producers that yield or sleep between chunks, in every third repetition about half of them S/MIME signed through SignWithTLSCertificate with one shared certificate value) through ONE mail.Client: all via Send on one established connection, all via DialAndSend, and mixed (in a quarter of the repetitions with the debug log on and one log.Stdlog value shared by all connections; in half of the DialAndSend / mixed repetitions the Client has a fallback port and nothing answers on the primary one; in some repetitions the server refuses recipients of about a third of the messages - all of them or one of two - so that those messages fail at RCPT while everybody else's are delivered); the reference server adds seeded latency jitter to every reply and reads DATA slowly. Every repetition runs in its own child process built with -race. non-trivial = at least two Sends were in flight at a commit instant; distinct by commit order",
+		Rule: "G in {2,4,8,16,32,64} goroutines, each sending a batch of 1-3 distinct messages (unique ids and envelopes - a third of them with local parts that need quoting -, 100 B - 300 KB, some with producers that yield or sleep between chunks, in every third repetition about half of them S/MIME signed through SignWithTLSCertificate with one shared certificate value) through ONE mail.Client: all via Send on one established connection, all via DialAndSend, and mixed (in a quarter of the repetitions with the debug log on and one log.Stdlog value shared by all connections; in half of the DialAndSend / mixed repetitions the Client has a fallback port and nothing answers on the primary one; in some repetitions the server refuses recipients of about a third of the messages - all of them or one of two - so that those messages fail at RCPT while everybody else's are delivered); in one more kind of repetition 24 callers share one connection to a server that takes 200 ms per end-of-data while the Client timeout is 3 s, so that the queue for the connection lasts several timeouts and no single call does); the reference server adds seeded latency jitter to every reply and reads DATA slowly. Every repetition runs in its own child process built with -race. non-trivial = at least two Sends were in flight at a commit instant; distinct by commit order",
 		Assumptions: []string{
 			"exactly-once, envelope/content pairing and transaction contiguity are judged from the reference server's per-connection logs; expected renderings are produced after all sends returned",
 			"porcupine (v1.3.0) checks that the shared connection's commit log is a linearization of the Send calls w.r.t. an append-only-log model; a checker timeout is inconclusive",
@@ -659,7 +679,7 @@ func runC13(r *ev.Run, rep *ev.ReplayDoc) ev.Summary {
 	}
 	exe, _ := os.Executable()
 	runChild := func(c c13Case) {
-		cmd := exec.Command(exe, "child", "c13", c.Mode, fmt.Sprint(c.G), fmt.Sprint(c.Rep), fmt.Sprint(c.Seed), c.Auth, map[bool]string{true: "smime", false: "plain"}[c.SMIME], map[bool]string{true: "fallback", false: "direct"}[c.Fallback], map[bool]string{true: "debuglog", false: "nolog"}[c.DebugLog], map[bool]string{true: "deadconn", false: "liveconn"}[c.DeadConn], map[bool]string{true: "starttls", false: "notls"}[c.StartTLS], map[bool]string{true: "refused", false: "allaccepted"}[c.Refused])
+		cmd := exec.Command(exe, "child", "c13", c.Mode, fmt.Sprint(c.G), fmt.Sprint(c.Rep), fmt.Sprint(c.Seed), c.Auth, map[bool]string{true: "smime", false: "plain"}[c.SMIME], map[bool]string{true: "fallback", false: "direct"}[c.Fallback], map[bool]string{true: "debuglog", false: "nolog"}[c.DebugLog], map[bool]string{true: "deadconn", false: "liveconn"}[c.DeadConn], map[bool]string{true: "starttls", false: "notls"}[c.StartTLS], map[bool]string{true: "refused", false: "allaccepted"}[c.Refused], map[bool]string{true: "queue", false: "noqueue"}[c.Queue])
 		cmd.Env = os.Environ()
 		var outb, errb bytes.Buffer
 		cmd.Stdout, cmd.Stderr = &outb, &errb
@@ -729,6 +749,9 @@ func runC13(r *ev.Run, rep *ev.ReplayDoc) ev.Summary {
 			if cr.CfgWritten {
 				r.Count("runs_in_which_the_callers_tls_config_was_written_to", 1)
 			}
+		}
+		if c.Queue {
+			r.Count("runs_with_a_queue_longer_than_the_timeout", 1)
 		}
 		if c.Refused {
 			r.Count("runs_with_refused_recipients", 1)
@@ -805,6 +828,10 @@ func runC13(r *ev.Run, rep *ev.ReplayDoc) ev.Summary {
 				}
 			}
 		}
+	}
+	// all callers share one connection to a slow server: the queue for the connection lasts several timeouts
+	for i := 0; i < r.Pick(1, 6); i++ {
+		cases = append(cases, c13Case{Mode: "shared", G: 24, Rep: 900 + i, Seed: r.Seed, Queue: true})
 	}
 	r.ParallelN(6, len(cases), func(i int) {
 		runChild(cases[i])
